@@ -634,4 +634,23 @@ def rule_guard_seq(ctx):
     ctx.borrow(rule_res, {"C02.RES": "C05.PATH"})
 
 
-RULES = [rule_one_end, rule_wrappers, rule_seq, rule_arg, rule_rest, rule_codes, rule_cwd, rule_rename, rule_refuse, rule_guard_seq]
+def rule_line(ctx):
+    from .c01 import rule_thru
+    ctx.rule("C05.LINE", "the command reader gets the line the peer sent, terminator included: the stream's readline proxy returns the reader's result unchanged "
+                         "(an empty command line is a line - answered 5xx - not the end of the session; shared with C01.THRU)")
+    ctx.borrow(lambda c: rule_thru(c, only=("readline",)), {"C01.THRU": "C05.LINE"})
+
+
+def rule_borrowed_r4(ctx):
+    from .c10 import rule_who, rule_manager
+    from .c18 import rule_mode
+    ctx.rule("C05.SLOTS", "USER/PASS are answered whatever the history: the per-user slot is taken and given back by the same pair of user-manager calls, so a repeated USER "
+                          "cannot hit 'Too many releases' and end the session without a reply (shared with C10.WHO / C10.ENUM)")
+    ctx.borrow(rule_who, {"C10.WHO": "C05.SLOTS"})
+    ctx.borrow(rule_manager, {"C10.ENUM": "C05.SLOTS", "C10.MGR": "C05.SLOTS"})
+    ctx.rule("C05.BACKEND", "the resulting file tree is that of the reference model on every shipped backend: the in-memory open() follows io.open mode by mode "
+                            "(REST+STOR of a missing file fails and creates nothing; shared with C18.MODE)")
+    ctx.borrow(rule_mode, {"C18.MODE": "C05.BACKEND"})
+
+
+RULES = [rule_one_end, rule_wrappers, rule_seq, rule_arg, rule_rest, rule_codes, rule_cwd, rule_rename, rule_refuse, rule_guard_seq, rule_line, rule_borrowed_r4]
